@@ -4,7 +4,7 @@ import re
 from ..fn import World
 from ..index import AnalysisError, dotted
 from ..astutil import text, short, endswith, calls_in, walk_no_nested
-from ._h_E import Flow, arg, argn, return_nodes, return_cases, same_module_callees, is_const, \
+from ._h_E import decide, anchors_of, cname, calls_E, nodes_calling_E, Flow, arg, argn, return_nodes, return_cases, same_module_callees, is_const, \
     args_by_params
 
 EXPLANATION = (
@@ -17,19 +17,22 @@ EXPLANATION = (
   "is returned only after the consumer's own acceptor -- compile() of the body wrapped in a "
   "function -- has accepted it inside the fence, because the parsers accept programs the "
   "compiler rejects (R4); the stub comments out every input line and embeds user text only "
-  "through repr (R5). Not decided: semantic equivalence of valid formulas beyond these "
+  "through repr (R5); the hint that makes make_formula_body undo the indentation inside multi-line "
+  "literals is computed from each literal's source extent, for the same node types the un-indent "
+  "pass handles, never from its runtime value (R6). Not decided: semantic equivalence of valid formulas beyond these "
   "translation steps.")
 
 CB = "codebuilder._do_make_formula_body"
 
 
 def check(run, repo, tier):
-  w = World(repo)
-  r1_fenced(run, w)
-  r2_line_model(run, w)
-  r3_translation(run, w)
-  r4_compile_acceptor(run, w)
-  r5_stub(run, w)
+  # each rule is decided on the code as written; when it is not satisfied there, it is asked again
+  # on the view with private helpers inlined (see _h_E.decide), so statements moved into a new
+  # helper keep their place
+  import os
+  _HERE = os.path.dirname(os.path.abspath(__file__))
+  decide(run, repo, [r1_fenced, r2_line_model, r3_translation, r4_compile_acceptor, r5_stub, r6_multiline_hint],
+         anchors_of(os.path.join(_HERE, "c19.py"), os.path.join(_HERE, "_h_E.py"), os.path.join(_HERE, "../events.py")))
 
 
 PARSERS = ("astroid.parse", "ast.parse", "compile")
@@ -244,9 +247,9 @@ def r2_line_model(run, w):
          lang == {"\r", "\r\n"} and not flags, fi=nfi,
          witness=None if lang == {"\r", "\r\n"} else "language: %r" % (lang,))
   cfg = fn.cfg
-  norm_nodes = fn.nodes_calling(lambda c, nm, f: nm == nfi.name)
+  norm_nodes = nodes_calling_E(fn, lambda c, nm, f: nm == nfi.name)
   # line-based consumers of the formula text inside _do_make_formula_body
-  consumers = fn.nodes_calling(lambda c, nm, f: nm in ("_dedent", "_indent",
+  consumers = nodes_calling_E(fn, lambda c, nm, f: nm in ("_dedent", "_indent",
                                                       "textbuilder.make_regexp_patches",
                                                       "asttokens.ASTText",
                                                       "_create_syntax_error_code"))
@@ -311,7 +314,7 @@ def _const_arg(w, fn, flow, c, index):
 
 
 def _patches_inserting(w, fn, flow, new_text):
-  return [c for c in calls_in(fn.node) if endswith(fn.name(c), "make_patch") and
+  return [c for c in calls_in(fn.node) if endswith(cname(fn, c), "make_patch") and
           flow.where(c) and _const_arg(w, fn, flow, c, 3) == new_text]
 
 
@@ -353,7 +356,7 @@ def r3_translation(run, w):
   if not recs:
     # the construction of the patch may have been extracted into a helper taking the node
     found = 0
-    for (n, c, nm) in fn.calls():
+    for (n, c, nm) in calls_E(fn):
       for hfi in same_module_callees(w, fn, c, depth=1):
         if hfi.module is not fn.fi.module or hfi.qualname == fn.qualname:
           continue
@@ -506,12 +509,12 @@ def r4_compile_acceptor(run, w):
         continue
       hfn = w.fn_of(fi)
       hflow = Flow(hfn)
-      hits = {n.id for (n, c, nm) in hfn.calls() if nm in names and argn(w, hfn, c, 0) is not None
+      hits = {n.id for (n, c, nm) in calls_E(hfn) if nm in names and argn(w, hfn, c, 0) is not None
               and hflow.itext(argn(w, hfn, c, 0), n.id, stop=fi.params()) == fi.params()[0]}
       if hits and hfn.cfg.dominated_by(hfn.cfg.exit.id, hits):
         names.add(fi.name)
         changed = True
-  acc_nodes = fn.nodes_calling(lambda c, nm, f: nm in names)
+  acc_nodes = nodes_calling_E(fn, lambda c, nm, f: nm in names)
   # the return of the translated body
   def is_replacer(x, n):
     return isinstance(x, ast.Call) and endswith(dotted(x.func), "Replacer")
@@ -591,6 +594,103 @@ def r5_stub(run, w):
          "see R2) gets the comment prefix", ok, nontrivial=False)
 
 
+def _isinstance_types(e):
+  """Type names of an `isinstance(x, T)` test (T a class or a tuple of classes)."""
+  t = e.args[1]
+  return {text(x) for x in (t.elts if isinstance(t, (ast.Tuple, ast.List)) else [t])}
+
+
+def r6_multiline_hint(run, w):
+  R6 = run.rule("C19-R6", "the multi-line-literal hint is set from the source extent of the "
+                "literal (its text / line span), for every node type the un-indent pass handles, "
+                "never from the literal's value", floor=2)
+  fn = w.fn(CB)
+  flow = Flow(fn)
+  cfg = fn.cfg
+  HINT = "have_multiline_strings"
+  # the consumer: make_formula_body un-indents only when the hint is set
+  mk = w.fn("codebuilder.make_formula_body")
+  reads = [x for x in ast.walk(mk.node)
+           if (isinstance(x, ast.Attribute) and x.attr == HINT) or
+           (isinstance(x, ast.Call) and dotted(x.func) == "getattr" and len(x.args) >= 2 and
+            is_const(x.args[1], HINT))]
+  if not reads:
+    raise AnalysisError("make_formula_body no longer reads the %s hint" % HINT)
+  # the node types the un-indent pass looks at
+  un = w.fn("codebuilder._multiline_string_nodes")
+  handled = set()
+  for x in ast.walk(un.node):
+    if _is_call_of(x, "isinstance") and len(x.args) == 2:
+      handled |= _isinstance_types(x)
+  if not handled:
+    raise AnalysisError("_multiline_string_nodes: node type test not recognised")
+  # where the hint is stored on the returned builder
+  stores = [n for n in cfg.nodes if n.kind == "stmt" and isinstance(n.stmt, ast.Assign) and
+            any(isinstance(t, ast.Attribute) and t.attr == HINT for t in n.stmt.targets)]
+  if not stores:
+    raise AnalysisError("_do_make_formula_body no longer stores the %s hint" % HINT)
+
+  def walk_var(e, nid):
+    src = flow.loop_source(e, nid)
+    return src is not None and _walks_tree(flow, src[0], src[1])
+
+  def source_text(x, k):
+    """<atok>.get_text(<walked node>) / ast.get_source_segment(..., <walked node>)"""
+    return isinstance(x, ast.Call) and isinstance(x.func, ast.Attribute) and \
+        x.func.attr in ("get_text", "get_source_segment") and \
+        any(walk_var(a, k) for a in x.args)
+
+  def line_of(x, k):
+    return isinstance(x, ast.Attribute) and x.attr in ("lineno", "end_lineno") and \
+        walk_var(x.value, k)
+
+  def from_extent(t, pol, i):
+    """`"\n" in <source text of the node>` or a comparison of the node's first and last line."""
+    if not isinstance(t, ast.Compare) or len(t.ops) != 1:
+      return False
+    l, r = t.left, t.comparators[0]
+    if isinstance(t.ops[0], ast.In) and pol is True:
+      return is_const(flow.resolve(l, i)[0], "\n") and flow.denotes(r, i, source_text)
+    if flow.denotes(l, i, line_of) and flow.denotes(r, i, line_of):
+      return (isinstance(t.ops[0], ast.Eq) and pol is False) or \
+          (isinstance(t.ops[0], (ast.Gt, ast.Lt)) and pol is True)
+    return False
+
+  for st in stores:
+    ls = flow.leaves(st.stmt.value, st.id)
+    consts = all(isinstance(l.expr, ast.Constant) and isinstance(l.expr.value, bool) for l in ls)
+    trues = [l for l in ls if isinstance(l.expr, ast.Constant) and l.expr.value is True]
+    run.ob(R6, fn.qualname, "final_formula.%s = <flag set while walking the tree>" % HINT,
+           "the hint handed to make_formula_body is the flag computed from the parsed tree",
+           bool(ls) and consts and bool(trues), fi=fn.fi, node=st.stmt)
+    ok = bool(trues)
+    types = set()
+    hint_names = {st.stmt.value.id} if isinstance(st.stmt.value, ast.Name) else set()
+    heads = [n.id for n in cfg.nodes if n.kind == "for" and _walks_tree(flow, n.stmt.iter, n.id)]
+    for l in trues:
+      extent = False
+      inside = [h for h in heads if l.nid in flow.loop_body(h)]
+      if not inside:
+        ok = False
+        continue
+      for (t, pol, i) in flow.facts_inside(l.nid, inside[0]):
+        if _is_call_of(t, "isinstance") and len(t.args) == 2 and walk_var(t.args[0], i) and pol:
+          types |= _isinstance_types(t)
+        elif from_extent(t, pol, i):
+          extent = True
+        elif isinstance(t, ast.Name) and t.id in hint_names and pol is False:
+          pass        # "not decided yet": skips work once the flag is set
+        else:
+          ok = False  # any other condition (e.g. on the literal's value) can hide a multi-line literal
+      ok = ok and extent
+    ok = ok and handled <= types
+    run.ob(R6, fn.qualname, "%s = True iff isinstance(node, (%s)) and '\\n' in <source text of node>"
+           % (HINT, ", ".join(sorted(handled))),
+           "a literal counts as multi-line by its source extent -- what decides whether indenting "
+           "the body changed it -- for every node type the un-indent pass handles", ok,
+           fi=fn.fi, node=st.stmt)
+
+
 C = "sandbox/grist/codebuilder.py"
 VARIANTS = [
   ("no-newline-normalisation", C, "  formula_builder_text = _normalize_newlines(formula_builder_text)\n", "", "C19-R2"),
@@ -629,5 +729,11 @@ VARIANTS = [
   ("return-before-any-last-stmt", C, "  if isinstance(last_statement, ast.Expr):", "  if isinstance(last_statement, (ast.Expr, ast.Assign)):", "C19-R3"),
   ("return-check-last-statement-only", C, "      for node in itertools.chain([last_statement], ast.walk(tree))",
    "      for node in ast.walk(last_statement)", "C19-R3"),
+  ("multiline-hint-from-value", C, """    if isinstance(node, (ast.Constant, ast.JoinedStr)) and "\\n" in atok.get_text(node):
+      have_multiline_strings = True""", """    if isinstance(node, ast.Constant) and isinstance(node.value, str) and "\\n" in node.value:
+      have_multiline_strings = True""", "C19-R6"),
+  ("multiline-hint-misses-fstrings", C, """    if isinstance(node, (ast.Constant, ast.JoinedStr)) and "\\n" in atok.get_text(node):
+      have_multiline_strings = True""", """    if isinstance(node, ast.Constant) and "\\n" in atok.get_text(node):
+      have_multiline_strings = True""", "C19-R6"),
   ("stub-raw-message", C, """  return "%s\\nraise %s(%r, ('usercode', %r, %r, %r))" % (""", """  return "%s\\nraise %s('%s', ('usercode', %r, %r, %r))" % (""", "C19-R5"),
 ]
